@@ -96,6 +96,69 @@ def run(chk, F, tier):
                       "%s calls %s on the marker event vector: Marker::{complete,undo,set_kind} and parent links index events by "
                       "position, which is only sound for an append-only vector" % (b.id, n), b.loc(c["l"]))
     chk.floor("Vec<MarkEvent> call sites", n_ev, 5)
+    # R01d: the text of every green token is a slice of the source text
+    chk.rule("R01d", "every token handed to the rowan builder carries a slice of the source text (never a constant or derived string)")
+    gb = F.bodies.get("emmylua_parser::syntax::tree::lua_green_builder::LuaGreenNodeBuilder::build_rowan_green")
+    if gb is None:
+        raise RuleBroken("build_rowan_green not found")
+    import dataflow
+    text_params = [i for i in range(1, gb.argc + 1) if gb.local_ty_str(i) == "&str"]
+    ntok = 0
+    for bb, c in gb.calls():
+        if "GreenNodeBuilder" in name(c) and name(c).endswith("::token") and len(c["a"]) >= 3:
+            ntok += 1
+            l = dataflow.operand_local(c["a"][2])
+            rs = dataflow.roots(gb, l) if l is not None else set()
+            ok = bool(rs)
+            for r in rs:
+                if r[0] != "call":
+                    ok = False
+                    continue
+                cc = gb.blocks[r[1]][2][1]
+                if not (cc.get("f") or "").endswith("ops::index::Index::index"):
+                    ok = False
+                    continue
+                l0 = dataflow.operand_local(cc["a"][0])
+                r0 = dataflow.roots(gb, l0) if l0 is not None else set()
+                if not r0 or not all(x[0] == "arg" and x[1] in text_params for x in r0):
+                    ok = False
+            chk.check(ok, "R01d", "token-text-from-source",
+                      "build_rowan_green hands rowan a token text that is not (only) a slice of the source text: the tree's text can "
+                      "then differ from the input although all ranges look right", gb.loc(c["l"]),
+                      witness={"roots": sorted(map(str, rs))},
+                      sample={"rule": "R01d", "verdict": "token text = &text[start..end]"})
+    chk.floor("green token sites", ntok, 1)
+    # R01e: the lexers never discard consumed characters: Reader::reset_buff is never reachable after a bump/eat/lex call
+    # without a token having been pushed for the consumed buffer in between
+    chk.rule("R01e", "no reset of the lexer buffer after consuming characters unless a token was pushed for them")
+    nres = 0
+    for k, b in F.bodies.items():
+        if not k.startswith("emmylua_parser::lexer") or b.kind not in ("fn", "closure"):
+            continue
+        R = {bb for bb, c in b.calls() if name(c).endswith("Reader::reset_buff")}
+        if not R:
+            continue
+        nres += len(R)
+        B = {bb for bb, c in b.calls() if name(c).endswith(("Reader::bump", "Reader::eat_while", "Reader::eat_when")) or "::lex" in name(c).split("<")[0]}
+        PU = {bb for bb, c in b.calls() if name(c).startswith("alloc::vec::Vec") and name(c).endswith("::push")}
+        succ = b.succ_map()
+        bad = []
+        import cfgutil
+        for x in B:
+            p = cfgutil.paths_avoiding(succ, x, R, PU)
+            if p and len(p) > 1:
+                bad.append(b.blocks[x][2][1]["l"])
+        chk.check(not bad, "R01e", "reset-after-consume@" + k.replace("emmylua_parser::", ""),
+                  "%s resets the reader buffer after consuming characters (lines %s) without pushing a token for them: those bytes "
+                  "belong to no token and vanish from the tree" % (k.split("::")[-1], sorted(set(bad))[:4]), b.loc(),
+                  sample={"rule": "R01e", "fn": k.split("::")[-1], "verdict": "buffer reset only before consuming"})
+    # who may call reset_buff at all: only the lexers
+    for k, b in F.bodies.items():
+        if b.crate == "emmylua_parser" and not k.startswith(("emmylua_parser::lexer", "emmylua_parser::text::reader")):
+            for bb, c in b.calls():
+                if name(c).endswith("Reader::reset_buff"):
+                    chk.violation("R01e", "reset-outside-lexer@" + k, "%s calls Reader::reset_buff outside the lexers" % k, b.loc(c["l"]))
+    chk.floor("reset_buff call sites", nres, 2)
     # R01c
     ie = F.bodies.get("emmylua_parser::text::reader::Reader::is_eof")
     if ie is None:
